@@ -120,6 +120,7 @@ type fnCtx struct {
 	nquery     int
 	aborted    string
 	closures   map[string]*closureInfo
+	interf     bool   // interference pass: only ipost / lockinv obligations are emitted
 	curFrame   *frame // call site whose callee effects are being applied (C19 write obligations)
 	curSite    string
 	freeCells  map[string]Val // captured variables (closure under verification): name -> cell address
